@@ -5,6 +5,7 @@ from pyvc import tys as T
 MD = "maze_dataset/dataset/maze_dataset.py"
 LM = "maze_dataset/maze/lattice_maze.py"
 REGISTRY.class_files.update({"MazeDataset": MD, "SolvedMaze": LM, "LatticeMaze": LM, "TargetedLatticeMaze": LM})
+REGISTRY.inlinable.update({(MD, "MazeDataset.__len__"), (MD, "MazeDataset.__getitem__")})
 
 SOLVED = T.RecT(
     "SolvedMaze",
@@ -13,7 +14,8 @@ SOLVED = T.RecT(
     start_pos=T.Coord,
     end_pos=T.Coord,
 )
-CFG = T.RecT("MazeDatasetConfig", grid_n=T.Nat)
+# n_mazes is deliberately unconstrained: the configured count may be stale (it is not compared, and datasets are built from sub-lists)
+CFG = T.RecT("MazeDatasetConfig", grid_n=T.Nat, n_mazes=T.Int)
 # generation metadata already collected (or none to collect): the branch that calls the filter machinery is outside the subset
 DATASET = T.RecT("MazeDataset", cfg=CFG, mazes=T.ListT(SOLVED), generation_metadata_collected=T.Const({"collected": True}))
 
@@ -165,4 +167,169 @@ class minimal_roundtrip:
         "C05.roundtrip.ends": f"forall(lambda k: result.mazes[k].start_pos[0] == ds.mazes[k].start_pos[0] and result.mazes[k].start_pos[1] == ds.mazes[k].start_pos[1]"
         f" and result.mazes[k].end_pos[0] == ds.mazes[k].end_pos[0] and result.mazes[k].end_pos[1] == ds.mazes[k].end_pos[1], (0, {_ND}))",
     }
+    props = ["C05"]
+
+
+# ------------------------------------------------------------------------------ minimal format with concatenated solutions
+_LENS = "[m.solution.shape[0] for m in self.mazes]"
+
+
+@contract(MD, "MazeDataset._serialize_minimal_soln_cat")
+class serialize_minimal_soln_cat:
+    params = dict(self=DATASET)
+    lets = dict(g="self.cfg.grid_n")
+    requires = [r for r in serialize_minimal.requires if not r.startswith(f"{_N} >= 1")] + [
+        f"forall(lambda k: self.mazes[k].solution.shape[0] >= 1, (0, {_N}))",
+        f"psum({_LENS}, {_N}) < 2 ** 31",
+        # endpoints are int8 coordinates too
+        f"forall(lambda k, c: -128 <= self.mazes[k].start_pos[c] and self.mazes[k].start_pos[c] <= 127 and -128 <= self.mazes[k].end_pos[c] and self.mazes[k].end_pos[c] <= 127, (0, {_N}), (0, 2))",
+    ]
+    entry_lemmas = [f"psum_monotone({_LENS})"]
+    ensures = {
+        "C05.cat.format": "result['__format__'] == 'MazeDataset:minimal_soln_cat'",
+        "C05.cat.shapes": f"result['maze_connection_lists'].shape == ({_N}, 2, g, g) and result['maze_solution_lengths'].shape == ({_N},)"
+        f" and result['maze_solutions_concat'].shape == (psum({_LENS}, {_N}), 2)",
+        "C05.cat.connection_lists": f"forall(lambda k, d, i, j: result['maze_connection_lists'][k, d, i, j] == self.mazes[k].connection_list[d, i, j], (0, {_N}), (0, 2), (0, g), (0, g))",
+        "C05.cat.lengths": f"forall(lambda k: result['maze_solution_lengths'][k] == self.mazes[k].solution.shape[0], (0, {_N}))",
+        # the k-th solution sits at offset (sum of the earlier lengths) of the concatenation
+        "C05.cat.solutions": f"forall(lambda k, t, c: implies(t < self.mazes[k].solution.shape[0],"
+        f" result['maze_solutions_concat'][psum({_LENS}, k) + t, c] == self.mazes[k].solution[t, c]), (0, {_N}), (0, 2 ** 31), (0, 2))",
+    }
+    loops = {
+        0: Loop(
+            head="for idx, maze in enumerate(filtered_meta.mazes)",
+            havoc=dict(
+                maze_connection_lists=T.GridT("bool", [None, 2, None, None]),
+                maze_endpoints=T.GridT("int", [None, 2, 2], dtype="int8"),
+                maze_solution_lengths=T.GridT("int", [None], dtype="int32"),
+                maze_solutions_concat=T.GridT("int", [None, 2], dtype="int8"),
+                solutions_running_idx=T.Int,
+            ),
+            inv={
+                "shapes": f"maze_connection_lists.shape == ({_N}, 2, g, g) and maze_solution_lengths.shape == ({_N},) and maze_solutions_concat.shape == (psum({_LENS}, {_N}), 2)"
+                f" and maze_endpoints.shape == ({_N}, 2, 2)",
+                "running": f"solutions_running_idx == psum({_LENS}, _k)",
+                "connection_lists": "forall(lambda k, d, i, j: maze_connection_lists[k, d, i, j] == self.mazes[k].connection_list[d, i, j], (0, _k), (0, 2), (0, g), (0, g))",
+                "lengths": f"forall(lambda k: maze_solution_lengths[k] == self.mazes[k].solution.shape[0], (0, {_N}))",
+                "solutions": f"forall(lambda k, t, c: implies(t < self.mazes[k].solution.shape[0],"
+                f" maze_solutions_concat[psum({_LENS}, k) + t, c] == self.mazes[k].solution[t, c]), (0, _k), (0, 2 ** 31), (0, 2))",
+            },
+            lemmas=[f"psum_monotone({_LENS})"],
+        )
+    }
+    result = lambda env: T.PyDictT(
+        __format__=T.Const("MazeDataset:minimal_soln_cat"),
+        cfg=CFG,
+        generation_metadata_collected=T.Const(None),
+        maze_connection_lists=T.GridT("bool", [None, 2, None, None]),
+        maze_endpoints=T.GridT("int", [None, 2, 2]),
+        maze_solution_lengths=T.GridT("int", [None]),
+        maze_solutions_concat=T.GridT("int", [None, 2]),
+    )
+    props = ["C05"]
+
+
+CAT = T.PyDictT(
+    __format__=T.Const("MazeDataset:minimal_soln_cat"),
+    cfg=CFG,
+    generation_metadata_collected=T.Const(None),
+    maze_connection_lists=T.GridT("bool", [None, 2, None, None]),
+    maze_solution_lengths=T.GridT("int", [None]),
+    maze_solutions_concat=T.GridT("int", [None, 2]),
+)
+_NC = "data['maze_connection_lists'].shape[0]"
+_OFF = "psum(data['maze_solution_lengths'], k)"
+
+
+@contract(MD, "MazeDataset._load_minimal_soln_cat")
+class load_minimal_soln_cat:
+    params = dict(cls=T.ClassT(MD, "MazeDataset"), data=CAT)
+    requires = [
+        f"data['maze_solution_lengths'].shape[0] == {_NC}",
+        # what _serialize_minimal_soln_cat writes: every stored length at least 1, the concatenation exactly as long as their sum, endpoints in the grid
+        f"forall(lambda k: 1 <= data['maze_solution_lengths'][k], (0, {_NC}))",
+        f"data['maze_solutions_concat'].shape[0] == psum(data['maze_solution_lengths'], {_NC})",
+        f"forall(lambda k: in_grid(maze_of(data['maze_connection_lists'][k]), data['maze_solutions_concat'][{_OFF}])"
+        f" and in_grid(maze_of(data['maze_connection_lists'][k]), data['maze_solutions_concat'][{_OFF} + data['maze_solution_lengths'][k] - 1]), (0, {_NC}))",
+    ]
+    entry_lemmas = ["psum_monotone(data['maze_solution_lengths'])"]
+    ensures = {
+        "C05.catload.count": f"len(result.mazes) == {_NC}",
+        "C05.catload.connection_lists": f"forall(lambda k: same_grid(result.mazes[k].connection_list, data['maze_connection_lists'][k]), (0, {_NC}))",
+        "C05.catload.solutions": f"forall(lambda k: result.mazes[k].solution.shape == (data['maze_solution_lengths'][k], 2)"
+        f" and forall(lambda t, c: result.mazes[k].solution[t, c] == data['maze_solutions_concat'][{_OFF} + t, c], (0, data['maze_solution_lengths'][k]), (0, 2)), (0, {_NC}))",
+        "C05.catload.starts": f"forall(lambda k: result.mazes[k].start_pos[0] == data['maze_solutions_concat'][{_OFF}, 0] and result.mazes[k].start_pos[1] == data['maze_solutions_concat'][{_OFF}, 1], (0, {_NC}))",
+        "C05.catload.ends": f"forall(lambda k: result.mazes[k].end_pos[0] == data['maze_solutions_concat'][{_OFF} + data['maze_solution_lengths'][k] - 1, 0]"
+        f" and result.mazes[k].end_pos[1] == data['maze_solutions_concat'][{_OFF} + data['maze_solution_lengths'][k] - 1, 1], (0, {_NC}))",
+    }
+    result = T.RecT("MazeDataset", cfg=CFG, mazes=T.ListT(SOLVED), generation_metadata_collected=T.Const(None))
+    props = ["C05"]
+
+
+_NDS = "len(ds.mazes)"
+
+
+@contract("/verif/contracts/lemmas_src.py", "soln_cat_roundtrip")
+class soln_cat_roundtrip:
+    """Lemma C05.cat: load_minimal_soln_cat(serialize_minimal_soln_cat(ds)) has the same number of mazes in the same order with identical
+    connection structure, solution, start and end - a pure consequence of the two contracts."""
+    params = dict(ds=DATASET)
+    lets = dict(g="ds.cfg.grid_n")
+    # the stored lengths agree entry by entry with the solution lengths, hence so do their prefix sums (the offsets)
+    lemma_after = {"d = ds._serialize_minimal_soln_cat()": ["psum_congruence(d['maze_solution_lengths'], [m.solution.shape[0] for m in ds.mazes], len(ds.mazes))",
+                                                             "psum_monotone([m.solution.shape[0] for m in ds.mazes])"]}
+    requires = [r.replace("self.", "ds.") for r in serialize_minimal_soln_cat.requires] + [
+        f"forall(lambda k: ds.mazes[k].start_pos[0] == ds.mazes[k].solution[0][0] and ds.mazes[k].start_pos[1] == ds.mazes[k].solution[0][1]"
+        f" and ds.mazes[k].end_pos[0] == ds.mazes[k].solution[ds.mazes[k].solution.shape[0] - 1][0]"
+        f" and ds.mazes[k].end_pos[1] == ds.mazes[k].solution[ds.mazes[k].solution.shape[0] - 1][1]"
+        f" and in_grid(ds.mazes[k], ds.mazes[k].start_pos) and in_grid(ds.mazes[k], ds.mazes[k].end_pos), (0, {_NDS}))",
+    ]
+    ensures = {
+        "C05.cat-roundtrip.count": f"len(result.mazes) == {_NDS}",
+        "C05.cat-roundtrip.connection_lists": f"forall(lambda k: same_grid(result.mazes[k].connection_list, ds.mazes[k].connection_list), (0, {_NDS}))",
+        "C05.cat-roundtrip.solutions": f"forall(lambda k: same_grid(result.mazes[k].solution, ds.mazes[k].solution), (0, {_NDS}))",
+        "C05.cat-roundtrip.ends": f"forall(lambda k: result.mazes[k].start_pos[0] == ds.mazes[k].start_pos[0] and result.mazes[k].start_pos[1] == ds.mazes[k].start_pos[1]"
+        f" and result.mazes[k].end_pos[0] == ds.mazes[k].end_pos[0] and result.mazes[k].end_pos[1] == ds.mazes[k].end_pos[1], (0, {_NDS}))",
+    }
+    props = ["C05"]
+
+
+# ------------------------------------------------------------------------------ format selection and dispatch
+@contract(MD, "MazeDataset._serialize_full", assumed=True, notes="trusted: muutils json_serialize walks the dataclass fields (reflection); the full format is decided by the bounded stand-in")
+class serialize_full:
+    params = dict(self=DATASET)
+    ensures = {"format": "result['__format__'] == 'MazeDataset'"}
+    result = T.PyDictT(__format__=T.Const("MazeDataset"))
+    props = ["C05"]
+
+
+@contract(MD, "MazeDataset.serialize")
+class serialize:
+    """which storage format the size threshold selects (SERIALIZE_MINIMAL_THRESHOLD is a module global: any value)"""
+    params = dict(self=DATASET, SERIALIZE_MINIMAL_THRESHOLD=T.OneOf(T.NoneT(), T.Int))
+    lets = dict(g="self.cfg.grid_n")
+    requires = [r for r in serialize_minimal.requires if not r.startswith(f"{_N} >= 1")]
+    ensures = {
+        # minimal exactly when a threshold is set and the dataset is at least that long (an empty dataset is always written in full)
+        "C05.format-selection": f"(result['__format__'] == 'MazeDataset:minimal') == (SERIALIZE_MINIMAL_THRESHOLD is not None and {_N} >= SERIALIZE_MINIMAL_THRESHOLD and {_N} > 0)",
+        "C05.format-selection.else-full": f"result['__format__'] == 'MazeDataset:minimal' or result['__format__'] == 'MazeDataset'",
+    }
+    options = dict(no_concrete=True)
+    props = ["C05"]
+
+
+@contract(MD, "MazeDataset.load")
+class load:
+    """dispatch on the stored format: both minimal formats reach their own loader (whose contracts carry the content)"""
+    params = dict(cls=T.ClassT(MD, "MazeDataset"), data=T.OneOf(MINIMAL, CAT), SERIALIZE_MINIMAL_THRESHOLD=T.OneOf(T.NoneT(), T.Int))
+    # the respective loader's preconditions (what the respective serializer writes)
+    requires = ["((" + ") and (".join(load_minimal.requires) + ")) if has_key(data, 'maze_solutions') else ((" + ") and (".join(load_minimal_soln_cat.requires) + "))"]
+    entry_lemmas = ["True if has_key(data, 'maze_solutions') else psum_monotone(data['maze_solution_lengths'])"]
+    ensures = {
+        "C05.load-dispatch.count": "len(result.mazes) == data['maze_connection_lists'].shape[0]",
+        "C05.load-dispatch.connection_lists": "forall(lambda k: same_grid(result.mazes[k].connection_list, data['maze_connection_lists'][k]), (0, data['maze_connection_lists'].shape[0]))",
+        "C05.load-dispatch.solution-lengths": "forall(lambda k: result.mazes[k].solution.shape[0] == data['maze_solution_lengths'][k], (0, data['maze_connection_lists'].shape[0]))",
+    }
+    result = T.RecT("MazeDataset", cfg=CFG, mazes=T.ListT(SOLVED), generation_metadata_collected=T.Const(None))
+    options = dict(no_concrete=True)
     props = ["C05"]
